@@ -5,6 +5,7 @@ package c11
 
 import (
 	"context"
+	"encoding/json"
 	"errors"
 	"fmt"
 	"os"
@@ -44,7 +45,7 @@ type doRun struct {
 	retCh    chan Ret
 	ret      *Ret
 	canceled bool
-	timed    bool
+	clock    int // half delays advanced so far
 }
 
 func (r *doRun) f(ctx context.Context, d *ring.InstanceDesc) (interface{}, error) {
@@ -126,8 +127,10 @@ func (r *doRun) start(preCancel bool) {
 		}
 	}()
 	if c.Delay {
+		// the delay timers were armed at bubble time T0; the driver's clock runs in half delays with
+		// a small offset (see run.start)
 		synctest.Wait()
-		time.Sleep(hedgeDelay / 2)
+		time.Sleep(clockOffset)
 	}
 }
 
@@ -168,10 +171,10 @@ func (r *doRun) options(last Step) []Step {
 		}
 	}
 	if !returned {
-		if r.cfg.Delay && !r.timed {
+		if r.cfg.Delay && r.clock < 2 {
 			for i := 1; i <= r.cfg.N; i++ {
 				if last.Calls[i-1] == 0 {
-					out = append(out, Step{A: "tick"})
+					out = append(out, Step{A: "adv"})
 					break
 				}
 			}
@@ -191,9 +194,9 @@ func (r *doRun) do(s Step) error {
 		}
 		r.finished[s.I] = true
 		r.gates[s.I] <- s.O
-	case "tick":
-		r.timed = true
-		time.Sleep(hedgeDelay)
+	case "adv":
+		r.clock++
+		time.Sleep(hedgeDelay / 2)
 	case "cancel":
 		r.canceled = true
 		r.cancel(errParent)
@@ -309,4 +312,15 @@ func TestRecordDo(t *testing.T) {
 		}
 	}
 	res.AddExtra("do_traces_recorded", id)
+}
+
+// TestReplayDo executes the behaviours emitted by QuorumDoGen.tla ($VERIF_IN).
+func TestReplayDo(t *testing.T) {
+	replayFile(t, func(raw []byte) (driver, string, error) {
+		var c DoCfg
+		if err := json.Unmarshal(raw, &c); err != nil {
+			return nil, "", err
+		}
+		return &doRun{cfg: c}, fmt.Sprintf("Do mode=%s delay=%v", c.Mode, c.Delay), nil
+	})
 }
